@@ -10,7 +10,7 @@ open EPV.Syn
 
 /-- allowed first token of a lookup key: name, integer, or a symbol whose `nud` is a parenthesis -/
 def keyCode (T : Tbl) (code : Nat) : Bool :=
-  code == 2 || code == 4 ||
+  code == 2 || code == 4 || code == 16 ||
     (code % 2 == 1 && match T.nud (code / 2) with | .group _ _ => true | _ => false)
 
 /-- symbol `o`: what the table says it does agrees with its level and kind in the grammar.
@@ -275,8 +275,9 @@ theorem key_spec {T : Tbl} {G : Gram} {bp : Nat → Nat} {K : Nat} (hc : Consist
   | atom k n =>
     simp only [Tree.yield, tokCode, keyCode, Bool.or_eq_true, beq_iff_eq, Bool.and_eq_true] at hk
     simp only [Tree.isKeySpec, Bool.or_eq_true, beq_iff_eq]
-    rcases hk with (h1 | h1) | ⟨h1, -⟩
-    · left; omega
+    rcases hk with ((h1 | h1) | h1) | ⟨h1, -⟩
+    · left; left; omega
+    · left; right; omega
     · right; omega
     · omega
   | group => rfl
@@ -284,7 +285,8 @@ theorem key_spec {T : Tbl} {G : Gram} {bp : Nat → Nat} {K : Nat} (hc : Consist
     exfalso
     cases hn : T.nud p <;> simp only [WFr, hn] at h
     simp only [Tree.yield, tokCode, keyCode, Bool.or_eq_true, beq_iff_eq, Bool.and_eq_true] at hk
-    rcases hk with (h1 | h1) | ⟨-, h2⟩
+    rcases hk with ((h1 | h1) | h1) | ⟨-, h2⟩
+    · omega
     · omega
     · omega
     · have : (2 * p + 1) / 2 = p := by omega
